@@ -1273,13 +1273,14 @@ def fs_op_str(op):
     if k == 'resregs': return 'resregs ' + gen.show(list(op[1]))
     return k
 
-def fs_oracle(e, o, ops, obs, index_free=False):
-    l = []; ieee = uses_ieee(e)
+def fs_oracle(e, o, ops, obs, index_free=False, heap=False):
+    l = []; ieee = uses_ieee(e); hs = {}
     for t, op in enumerate(ops):
         if t >= len(obs): return f'op {t}: no observation (last: {obs[-1] if obs else None})'
         g = obs[t]
         if g in ('[62]', '[63]', 'CRASH'): return f'op {t} ({fs_op_str(op)}): panicked or ill-typed ({g})'
         k = op[0]
+        if k != 'observe': hs.setdefault('since', []).append(k)
         if k == 'copy': l.append(op[1])
         elif k in ('extend', 'extendlazy'): l += list(op[1])
         elif k == 'fromiter': l = list(op[1])
@@ -1298,6 +1299,18 @@ def fs_oracle(e, o, ops, obs, index_free=False):
             if not wire_equiv(v[4], ('S', [('S', p) for p in ps]), ieee): return f'op {t}: iteration yields {gen.show(v[4])}, copied values are {gen.show(ps)}'
             if not wire_equiv(v[5], ('S', [('S', p) for p in ps[1:]]), ieee): return f'op {t}: a cloned iterator after one step yields {gen.show(v[5])}'
             if len(v) > 7 and v[7] != 1: return f'op {t}: size_hint does not bound the number of remaining items'
+            if heap and len(v) >= 11:
+                # C18 on the stack: every branch contributes at every moment, used <= capacity, no capacity shrinks on clear
+                allu = list(v[9]) + list(v[6]); allc = list(v[10]) + list(v[8])
+                if any(u_ > c_ for u_, c_ in zip(allu, allc)): return f'op {t}: used > capacity in {list(zip(allu, allc))}'
+                if not contains(e, 'cols'):
+                    if 'ncb' in hs and hs['ncb'] != len(allu):
+                        return f'op {t}: heap_size reported {len(allu)} (used, capacity) pairs, {hs["ncb"]} before: a branch of the stack stopped contributing'
+                    hs['ncb'] = len(allu)
+                since = hs.get('since', [])
+                if 'caps' in hs and since and all(x == 'clear' for x in since) and len(hs['caps']) == len(allc) and any(a > b for a, b in zip(hs['caps'], allc)):
+                    return f'op {t}: a capacity shrank on clear: {hs["caps"]} -> {allc}'
+                hs['caps'] = allc; hs['since'] = []
             if index_free:
                 if any(x != 0 for x in v[6]): return f'op {t}: the stack spends {v[6]} bytes on its own indices over a dense-index region'
                 if len(v) > 8 and any(x != 0 for x in v[8]): return f'op {t}: the stack holds index capacity {v[8]} over a dense-index region'
@@ -1369,7 +1382,7 @@ def gen_fs_cases(ctx, names, n, maxops, observe_each=True, p_serde=0.0, p_cap=0.
             cases.append((name, ops))
     return cases
 
-def run_fs_cases(ctx, res, cases, index_free_names=()):
+def run_fs_cases(ctx, res, cases, index_free_names=(), heap=False):
     hist = [(n, [fs_op_str(o) for o in ops]) for n, ops in cases]
     for prof in PROFILES:
         impl = lib.run_impl('fs', hist, prof)
@@ -1379,7 +1392,7 @@ def run_fs_cases(ctx, res, cases, index_free_names=()):
             res.per_entry[name] = res.per_entry.get(name, 0) + 1
             e, o = FS_EXPR[name]
             io = [g[0] if g else '' for g in io]; mo = [g[0] if g else '' for g in mo]
-            f = fs_oracle(e, o, ops, io, name in index_free_names)
+            f = fs_oracle(e, o, ops, io, name in index_free_names, heap)
             if f:
                 res.failures.append({'kind': 'oracle', 'entry': name, 'rust_type': f'FlatStack<{catalogue.rust_type(e)}, {o}>',
                                      'profile': prof, 'history': [fs_op_str(x) for x in ops], 'what': f,
@@ -1389,7 +1402,7 @@ def run_fs_cases(ctx, res, cases, index_free_names=()):
                 # the model predicts everything but the size-hint flag and the capacities
                 if x.startswith('['):
                     v = gen.parse(x)
-                    if len(v) == 10: return gen.show(v[:6] + [sorted(v[6]), sorted(v[9])])
+                    if len(v) >= 10: return gen.show(v[:6] + [sorted(v[6]), sorted(v[9])])
                     if len(v) == 8: return gen.show(v[:6] + [sorted(v[6]), sorted(v[7])])   # the model's observation
                 return x
             pi = [strip(x) for x in io]; mo = [strip(x) for x in mo]
@@ -1619,6 +1632,11 @@ def c18(ctx):
         return ref_oracle(e, ops, obs, [oracle_for(name, [tuple(o[:2]) for o in ops])], mo)
     run_regions(ctx, res, cases, oracle, 'values')
     run_impl_only(ctx, res, large, oracle)
+    # the stack's own heap_size: region and index container both contribute at every moment (also when the stack is empty
+    # but holds capacity: after clear, with_capacity, merge_capacity, reserve), used <= capacity, nothing shrinks on clear
+    fscases = gen_fs_cases(ctx, list(FS_EXPR), 10 if not ctx.thorough else 100, 14, observe_each=True, p_cap=0.3)
+    note_fs(res, fscases)
+    run_fs_cases(ctx, res, fscases, heap=True)
     return res
 
 # ================================================================== C17 allocation discipline
@@ -1871,6 +1889,20 @@ def c15(ctx):
 
 
 # ================================================================== C07 dictionary codec
+C07_FILL = {('str',): [120], ('n', 'u8'): 7}
+def c07_wrappable(sh):
+    if sh in (('list', ('n', 'u8')), ('str',)): return True
+    if sh[0] == 'list': return c07_wrappable(sh[1])
+    if sh[0] == 'tup': return c07_wrappable(sh[1][0]) and all(s in C07_FILL for s in sh[1][1:])
+    return False
+def c07_wrap(sh, v):
+    if sh in (('list', ('n', 'u8')), ('str',)): return v
+    if sh[0] == 'list': return [c07_wrap(sh[1], v)]
+    return [c07_wrap(sh[1][0], v)] + [C07_FILL[s] for s in sh[1][1:]]
+def c07_unwrap(sh, v):
+    if sh in (('list', ('n', 'u8')), ('str',)): return v
+    return c07_unwrap(sh[1] if sh[0] == 'list' else sh[1][0], v[0])
+
 def c07(ctx):
     res = Result()
     res.rule = ('dictionary-coded entries (bare, under StringRegion, under ConsecutiveIndexPairs, in slices, columns, '
@@ -1912,9 +1944,12 @@ def c07(ctx):
             ops.append(('read', d))
             if rng.random() < 0.15: ops += [('clear', d), ('push', d, 0, rng.choices(pool, weights)[0]), ('read', d)]
         for nm in names:
-            e = EXPR[nm]
-            if shape(e) in (('list', ('n', 'u8')),):
-                cases.append((nm, ops)); note_case(res, nm, ops)
+            e = EXPR[nm]; sh = shape(e)
+            if c07_wrappable(sh):
+                # the same byte strings (all ASCII, hence valid UTF-8) as the payload of every composition around the codec
+                wops = [(o[0], o[1], o[2], c07_wrap(sh, o[3])) if o[0] == 'push' else o for o in ops]
+                if caps(e)['heap']: wops = [x for o in wops for x in ([o, ('heap', o[1])] if o[0] == 'merge' or (o[0] == 'read') else [o])]
+                cases.append((nm, wops)); note_case(res, nm, wops)
     # all 256 first bytes against a trained dictionary
     for nm in ('cdc',):
         ops = [('push', 0, 0, [97, 98, 99])] * 5 + [('push', 0, 0, [100])] * 3 + [('push', 0, 0, [7, 7])] + [('merge', 1, [0])]
@@ -1961,17 +1996,20 @@ def c07(ctx):
           [('push', 1, 0, cold[i]) for i in (0, 253, 254, 255, 259, 299)] + [('read', 1)]
     cases.append(('cdc', ops)); res.nontrivial.add('last-tag-by-rank')
     def clause_for(e):
+        sh_e = shape(e)
+        # where the codec's own (start, end) pair sits inside the entry's index: the index itself, or its first component
+        ipath = (lambda ix: ix) if e[0] in ('cdc', 'strof') else (lambda ix: ix[0]) if (e[0] == 'tup2' and e[1][0] in ('cdc', 'strof')) else None
         def clause(t, op, g, ref, sc):
             k = op[0]
             st = sc.setdefault('stats', {i: ({}, set(), None) for i in range(4)})   # counts, seen first bytes, dictionary
             if k == 'push':
                 cnt, seen, dic = st[op[1]]
-                v = op[3]
+                v = c07_unwrap(sh_e, op[3])
                 if v:
                     cnt[tuple(v)] = cnt.get(tuple(v), 0) + 1; seen.add(v[0])
-                if dic is not None and tuple(v) in dic and g and g[0].startswith('i='):
-                    ix = gen.parse(g[0][2:])
-                    if isinstance(ix, list) and len(ix) == 2 and all(isinstance(x, int) for x in ix) and e[0] in ('cdc', 'strof'):
+                if dic is not None and tuple(v) in dic and g and g[0].startswith('i=') and ipath:
+                    ix = ipath(gen.parse(g[0][2:]))
+                    if isinstance(ix, list) and len(ix) == 2 and all(isinstance(x, int) for x in ix):
                         if ix[1] - ix[0] != 1:
                             return f'op {t}: {gen.show(v)} dominates the merged statistics but was stored in {ix[1] - ix[0]} bytes'
             elif k == 'clear': st[op[1]] = ({}, set(), None)
